@@ -262,7 +262,8 @@ type c17Scenario struct {
 	c       *ctx
 	rng     *rand.Rand
 	uid     string
-	srv     *trzsz.VerifTunnelEnd
+	srv     *trzsz.VerifTunnelEnd // nil when the server is a child process (e2e)
+	port    int
 	peers   []*c17Peer
 	evs     []c17Ev
 	kinds   []int
@@ -273,12 +274,18 @@ type c17Scenario struct {
 }
 
 func (sc *c17Scenario) drain() {
+	if sc.srv == nil {
+		return
+	}
 	for _, b := range sc.srv.Drain() {
 		sc.log = append(sc.log, b...)
 	}
 }
 
 func (sc *c17Scenario) refreshAdopted() {
+	if sc.srv == nil {
+		return
+	}
 	_, remote := sc.srv.AdoptedAddrs()
 	sc.adopted = -1
 	if remote == "" {
@@ -293,7 +300,7 @@ func (sc *c17Scenario) refreshAdopted() {
 }
 
 func (sc *c17Scenario) connect(kind int) *c17Peer {
-	p := c17Dial(sc.srv.Port, len(sc.peers))
+	p := c17Dial(sc.port, len(sc.peers))
 	sc.peers = append(sc.peers, p)
 	sc.kinds = append(sc.kinds, kind)
 	sc.evs = append(sc.evs, c17Ev{op: 'c'})
@@ -319,7 +326,7 @@ func (sc *c17Scenario) write(p *c17Peer, b []byte) {
 	}
 	first := len(p.sent) == 0
 	_, closedBefore := p.state()
-	if first && sc.adopted == -1 && c17Authenticates(b, sc.uid, sc.srv.Port) && len(b) <= 100 {
+	if first && sc.adopted == -1 && c17Authenticates(b, sc.uid, sc.port) && len(b) <= 100 {
 		sc.confirmAccepted()
 	}
 	before := len(sc.log)
@@ -331,18 +338,17 @@ func (sc *c17Scenario) write(p *c17Peer, b []byte) {
 		p.waitResponse(3 * time.Second)
 		if g, _ := p.state(); len(g) > 0 && sc.adopted == -1 {
 			// answered: wait for the CAS, the pump and listener.Close() to have happened
-			c17WaitUntil(3*time.Second, func() bool { _, r := sc.srv.AdoptedAddrs(); return r != "" })
-			c17WaitUntil(3*time.Second, func() bool {
-				probe, err := net.DialTimeout("tcp", "127.0.0.1:"+strconv.Itoa(sc.srv.Port), time.Second)
-				if err != nil {
-					return true
-				}
-				probe.Close()
-				return false
-			})
-			sc.refreshAdopted()
+			if sc.srv != nil {
+				c17WaitUntil(3*time.Second, func() bool { _, r := sc.srv.AdoptedAddrs(); return r != "" })
+			}
+			sc.waitListenerClosed()
+			if sc.srv != nil {
+				sc.refreshAdopted()
+			} else {
+				sc.adopted = p.idx // driven one event at a time: the first answered connection is the adopted one
+			}
 		}
-	case p.idx == sc.adopted && !closedBefore:
+	case p.idx == sc.adopted && !closedBefore && sc.srv != nil:
 		want := len(sc.log) - before + len(b)
 		_ = want
 		c17WaitUntil(3*time.Second, func() bool { sc.drain(); return len(sc.log)-before >= len(b) })
@@ -350,6 +356,17 @@ func (sc *c17Scenario) write(p *c17Peer, b []byte) {
 		time.Sleep(300 * time.Microsecond)
 	}
 	sc.drain()
+}
+
+func (sc *c17Scenario) waitListenerClosed() {
+	c17WaitUntil(3*time.Second, func() bool {
+		probe, err := net.DialTimeout("tcp", "127.0.0.1:"+strconv.Itoa(sc.port), time.Second)
+		if err != nil {
+			return true
+		}
+		probe.Close()
+		return false
+	})
 }
 
 func (sc *c17Scenario) inband(b []byte) {
@@ -397,16 +414,16 @@ func (sc *c17Scenario) act(tunnel bool, viaTunnel bool) string {
 }
 
 func (sc *c17Scenario) describe() string {
-	return fmt.Sprintf("uid=%s port=%d kinds=[%s] events=%s", sc.uid, sc.srv.Port, strings.Join(sc.desc, " "), c17EvString(sc.evs))
+	return fmt.Sprintf("uid=%s port=%d kinds=[%s] events=%s", sc.uid, sc.port, strings.Join(sc.desc, " "), c17EvString(sc.evs))
 }
 
 // direct oracles on what the far ends saw and on what reached the buffer
 func (sc *c17Scenario) oracles(tag string) {
-	_, sh := trzsz.VerifGetHelloConstant(sc.uid, sc.srv.Port)
+	_, sh := trzsz.VerifGetHelloConstant(sc.uid, sc.port)
 	nAdopted := 0
 	for _, p := range sc.peers {
 		g, closed := p.state()
-		auth := c17Authenticates(p.sent, sc.uid, sc.srv.Port)
+		auth := c17Authenticates(p.sent, sc.uid, sc.port)
 		kind := c17KindName[sc.kinds[p.idx]]
 		if len(g) > 0 && !auth {
 			sc.c.violate("tunnel:intruder-answered:"+kind, "a connection that never presented the hello of this transfer received bytes from the server",
@@ -452,7 +469,9 @@ func (sc *c17Scenario) finish() {
 	for _, p := range sc.peers {
 		p.end()
 	}
-	sc.srv.Cleanup()
+	if sc.srv != nil {
+		sc.srv.Cleanup()
+	}
 }
 
 // one sequential scenario: emits a tunnel_run case
@@ -464,7 +483,7 @@ func c17Sequential(c *ctx, seed int64, forced []int) *c17Line {
 		c.count("listen-failed")
 		return nil
 	}
-	sc := &c17Scenario{c: c, rng: rng, uid: uid, srv: srv, adopted: -1}
+	sc := &c17Scenario{c: c, rng: rng, uid: uid, srv: srv, port: srv.Port, adopted: -1}
 	defer sc.finish()
 	kinds := forced
 	if kinds == nil {
@@ -622,7 +641,7 @@ func c17Racy(c *ctx, seed int64) string {
 	if srv == nil {
 		return "listen-failed"
 	}
-	sc := &c17Scenario{c: c, rng: rng, uid: uid, srv: srv, adopted: -1}
+	sc := &c17Scenario{c: c, rng: rng, uid: uid, srv: srv, port: srv.Port, adopted: -1}
 	defer sc.finish()
 	n := 2 + rng.Intn(7)
 	type plan struct {
